@@ -386,6 +386,16 @@ func (C13) Run(c core.Case, ctx *core.Ctx) []core.Violation {
 						add("message-lacks-missing-argument", fmt.Sprintf("message does not mention %q", a.String()))
 					}
 				}
+				// independently of the library's own rendering: the Go type of every hopeless
+				// parameter, its name and its subtype appear in the text
+				for _, hi := range hopeless {
+					l := t.In[hi].Label
+					for _, part := range []string{world.Types[l.Type].String(), l.Name, l.Sub} {
+						if part != "" && !strings.Contains(msg, part) {
+							add("message-lacks-missing-argument", fmt.Sprintf("the message does not contain %q of missing parameter %s", part, l))
+						}
+					}
+				}
 			}
 			if dupKeys {
 				ctx.St.Inc("c13_duplicate_keys")
